@@ -13,11 +13,11 @@ LEVEL_TEXT = ('Proof for all 7 clauses (clause 6, the 1px triangle outline = its
               'every yielded point is in the closed triangle or a Bresenham pixel of a sorted edge, hence within HALF a pixel of an edge segment; the lines between the '
               'sorted vertices are part of the fill, two triangles on one edge share that line and leave no gap; row-major, inside the bounding box. For ALL polylines '
               '(0, 1 or more vertices, repeats, reversals, any translate): points() and the 1px styled pixels()/draw() = first segment line ++ every further line without its first point. '
-              'NOT covered by a theorem: triangles with a stroke of width >= 1 (clause 6, and the fill between the strokes for fill + stroke): search suites p_tri_outline / p_tri_cover '
+              'NOT covered by a theorem: the fill between the strokes of a triangle with fill + stroke of width >= 1 (clause 1 for them): search suite p_tri_cover; clause 6 is also searched by p_tri_outline '
               '(clause 1 at full strength for widths 0, 1 and Outside alignment; for wider Inside/Center strokes for the lattice points farther than width + 1 from every edge).')
 LEVEL_NOTE = ('Trusted: Coq kernel, extraction, the OCaml/Rust drivers; the hand-written model is validated by differential testing, not proved equal to '
               'the Rust code. Thin-line lemmas: Proofs/Line.v of builder "line". Arithmetic is unbounded Z; theorems carry tri_ok (+-8192), the range in which '
-              'area_doubled/contains stay inside i32 (C19_tri_range_no_overflow). tri_outline_w1 is proved in Properties/C19_join.v (Center, Outside, non-collapsed Inside).')
+              'area_doubled/contains stay inside i32 (C19_tri_range_no_overflow). tri_outline_w1 (clause 6) is proved in Properties/C19_join.v for every triangle and every alignment (C19_join_tri_outline_w1_proper / _w1_any / _flat_inside_w1_is_line); p_tri_outline also compares all three alignments on the implementation.')
 RULE = ('correspondence: Triangle::points() / bounding_box() for ALL 117 649 ordered vertex triples of a 7x7 grid (colinear and coincident vertices '
         'included) + random triples up to +-40 (flat/thin/axis-parallel shares), 40 up to +-300, 100 long slivers (edges up to 4000 px, inside +-8192) and small '
         'triangles at the range edge +-8192; Styled<Triangle> width 0 pixels() and fill_solid calls (tri_styled_w0) on all triples (up to order) of a 5x5 grid x 12 '
@@ -39,10 +39,7 @@ ASSUMPTIONS = ['triangle vertex coordinates within +-8192 (tri_ok): the range in
                'terms of a segment need |coordinates| <= 2^28 (C17 line_ok): the tie is claimed for |vertex| + |translate| <= 2^28 (correspondence up to +-2^20)']
 TRUSTED = ['modelled, not verified: Iterator::nth(1) = next() twice with early None; Range<i32>::is_empty / RangeInclusive::contains; '
            'Rectangle::rows() (C16 model); DrawTarget::fill_solid(area, c) writes c at every point of area (C01a/C03 are about that)']
-PARTIAL = ['tri_outline_w1 (clause 6: the 1px outline is the union of its three edge lines, rasterised between the clockwise-ordered vertices; colinear vertices with '
-           'Inside alignment: between the (y,x)-sorted vertices): proved in the join part for Center and Outside alignment and for Inside alignment when Triangle::is_collapsed is false (C19_join_tri_outline_w1_any: pixels() = union of the three clockwise Bresenham lines); '
-           'collapsed Inside strokes (with width 1: degenerate triangles only) paint the rows of Triangle::scanline_intersection instead (C19_join_collapsed_inside_pixels); all three alignments are also compared by p_tri_outline',
-           'clause 1 for triangles with fill AND a stroke of width >= 1: no theorem (thick-stroke pipeline); searched by p_tri_cover (full clause for widths 0, 1 and Outside alignment; '
+PARTIAL = ['clause 1 for triangles with fill AND a stroke of width >= 1: no theorem (thick-stroke pipeline); searched by p_tri_cover (full clause for widths 0, 1 and Outside alignment; '
            'wider Inside/Center strokes: lattice points farther than width + 1 from every edge; see notes/findings/FINDINGS-C19.md "observations outside the property")']
 
 PTS3 = [(x, y) for y in range(3) for x in range(3)]
